@@ -21,9 +21,11 @@ pub enum Node {
     ReqRep { rounds: u32 },
     /// spawn inner with arg*2, await, +1
     Chain { inner: Box<Node> },
-    /// two-source select `! [b, #'int]` where b never finishes and a helper sends one message
-    /// (only one source can ever be ready); then spawn inner with arg+1 and await: m + r
-    SelMsg { inner: Box<Node>, spin: u32 },
+    /// two-source select `! [b, #'int]` where b cannot finish before the select has completed and a
+    /// helper sends one message (only one source can ever be ready); then spawn inner with arg+1 and
+    /// await: m + r. With `release`, b is let go right before that await, so its completion - owed to the
+    /// select that is long over - is reported while the process waits for somebody else.
+    SelMsg { inner: Box<Node>, spin: u32, release: bool },
     /// two-source select `! [c, #'int]` where nobody ever sends: yields c's result, +3
     SelProc { inner: Box<Node>, msg_first: bool },
     /// the awaited result carries a heap binary (built from the argument): length + arg
@@ -92,7 +94,7 @@ impl Gen {
             _ => {
                 if rng.chance(1, 2) {
                     *budget -= 2;
-                    Node::SelMsg { inner: Box::new(Self::random_node(rng, depth - 1, budget)), spin: *rng.pick(&[0u32, 0, 6, 25]) }
+                    Node::SelMsg { inner: Box::new(Self::random_node(rng, depth - 1, budget)), spin: *rng.pick(&[0u32, 0, 6, 25]), release: rng.chance(1, 2) }
                 } else {
                     Node::SelProc { inner: Box::new(Self::random_node(rng, depth - 1, budget)), msg_first: rng.chance(1, 2) }
                 }
@@ -178,7 +180,7 @@ impl Gen {
                 self.defs.push(format!("{name} = #'int {{ =n, c = [n, 2] __integer_multiply__ @{k}, r = !c, [r, 1] __integer_add__ }}"));
                 name
             }
-            Node::SelMsg { inner, spin } => {
+            Node::SelMsg { inner, spin, release } => {
                 self.procs += 2;
                 let k = self.emit(inner);
                 let name = self.fresh();
@@ -188,6 +190,9 @@ impl Gen {
                 }
                 body.push("m = ! [b, #'int]".to_string());
                 body.push(format!("c = [n, 1] __integer_add__ @{k}"));
+                if *release {
+                    body.push("1 b".to_string());
+                }
                 body.push("r = !c".to_string());
                 body.push("[m, r] __integer_add__".to_string());
                 self.defs.push(format!("{name} = #'int {{ {} }}", body.join(", ")));
@@ -286,9 +291,10 @@ pub fn shape(node: &Node, h: &mut crate::rng::Fnv) {
             h.u64(5);
             shape(inner, h);
         }
-        Node::SelMsg { inner, spin } => {
+        Node::SelMsg { inner, spin, release } => {
             h.u64(6);
             h.u64(*spin as u64);
+            h.u64(*release as u64);
             shape(inner, h);
         }
         Node::SelProc { inner, msg_first } => {
